@@ -420,7 +420,7 @@ func TestCheck(t *testing.T) {
 	run.Assume("mutation ids never collide with subscription ids in these histories (C17 covers collisions)")
 	run.Assume("a subscription the server ended (logger Unsubscribe) without the client's unsubscribe, without an error envelope and without a close is still live for the client and must converge")
 	run.Assume("vlib.MergeTS is a faithful port of client/src/merge.ts")
-	n := run.N(120, 1500)
+	n := run.N(120, 6000)
 	stormRounds = run.N(600, 4000)
 	agg := vlib.NewHitAgg()
 	defer agg.Report(run)
